@@ -89,6 +89,31 @@ def run_unit(name, do_vacuity=True, known=()):
         return name, None, None, 'internal: %s\n%s' % (e, traceback.format_exc())
 
 
+REPRO_OF = {'e1_': ['C02', 'C11'], 'e3_': ['C12'], 'e4_': ['C16'], 'e5_': ['C08'], 'e6_': ['C08', 'C07'], 'e7_': ['C08', 'C01', 'C07']}
+
+
+def run_reproductions(pid):
+    """thorough tier, sanity net (not part of the proof): the reproductions of the defects recorded as `fixed:` are run on
+    the real crate; one that fails again is reported as a violation"""
+    import subprocess
+    mine = [k for k, v in REPRO_OF.items() if pid in v]
+    if not mine:
+        return None
+    try:
+        p = subprocess.run([os.path.join(VERIF, 'replays', 'run.sh'), '', gen.REPO], capture_output=True, text=True, timeout=1200)
+        out = p.stdout + p.stderr
+    except Exception as e:
+        return dict(error=str(e))
+    res = dict(ran=[], returned=[], output=out[-400:])
+    for line in out.split('\n'):
+        m = re.match(r'test (e\d_\w+) \.\.\. (\w+)', line)
+        if m and any(m.group(1).startswith(k) for k in mine):
+            res['ran'].append('%s=%s' % (m.group(1), m.group(2)))
+            if m.group(2) != 'ok':
+                res['returned'].append(m.group(1))
+    return res
+
+
 def readonly_census():
     """where does non-test code produce Error::ReadOnlyTx?  Backs the assumed contract `InnerBucket::* never
     answers ReadOnlyTx`: every occurrence must be a guard `return Err(Error::ReadOnlyTx)` in a function under contract."""
@@ -247,6 +272,23 @@ def main():
         json.dump(baseline, open(BASELINE, 'w'), indent=1, sort_keys=True)
         print('baseline rewritten for units %s' % P['units'])
 
+    # thorough tier extras: canary mutants (contract strength) and the defect reproductions on the real crate
+    canary_info, repro_info = None, None
+    if tier == 'thorough' and not a.no_canaries:
+        try:
+            import canary
+            cres = canary.run_for(prop=pid)
+            canary_info = dict(run=len(cres), killed=sum(1 for c in cres if c['status'] == 'killed'),
+                               survived=[c['name'] for c in cres if c['status'] == 'SURVIVED'],
+                               undecided=[c['name'] for c in cres if c['status'] not in ('killed', 'SURVIVED')])
+        except Exception as e:
+            canary_info = dict(error=str(e))
+        repro_info = run_reproductions(pid)
+        for name in (repro_info or {}).get('returned', []):
+            fl = verusrun.Failure('replay.%s' % name, 'replay', 'a defect recorded as fixed reproduces again on the real crate', '',
+                                  repro_info.get('output', '')[-3000:], name)
+            violations.append((fl, None, True))
+
     census = None
     if P.get('census') == 'ReadOnlyTx':
         census = readonly_census()
@@ -313,6 +355,8 @@ def main():
             composition=P.get('composition', 'paper (DESIGN section 5/6); unit obligations machine-checked'),
             not_covered=P.get('not_covered', []),
             census=census,
+            canaries=canary_info,
+            reproductions=repro_info,
             known_findings=[dict(obligation=fl.ident(), what=kf['what']) for fl, kf in known],
             known_finding_obligations_excluded_from_counts=len(known),
             findings_of_other_properties_in_shared_units=out_of_scope,
